@@ -39,11 +39,13 @@ def _scaled(tok):
 @driver("tx.dump")
 def tx_dump(case, ctx):
     import h5py
-    path = ctx.path()
-    gen.make_cooler(path, case["table"], case["px"], case["mode"])
+    path = gen.place(ctx.path(), case["table"], case["px"], case["mode"], at=case.get("at"))     # a URI when case["at"] is set
     if case["wexp"]:
-        with h5py.File(path, "r+") as f:
-            f["bins"].create_dataset("weight", data=np.array([float("nan") if e < 0 else float(2 ** e) for e in case["wexp"]]))
+        fp, grp = gen.split_uri(path)
+        with h5py.File(fp, "r+") as f:
+            f[grp]["bins"].create_dataset("weight", data=np.array([float("nan") if e < 0 else float(2 ** e) for e in case["wexp"]]))
+            if grp != "/":
+                f["bins"].create_dataset("weight", data=np.array([4.0 for _ in case["wexp"]]))      # the decoy's weights
     o = case["o"]
     args = ["dump", path, "--float-format", ".17g", "-k", str(case["chunk"])]
     if o["hasr"]:
@@ -148,8 +150,7 @@ def tx_roundtrip(case, ctx):
     import cooler
     d = ctx.subdir()
     table, mode = case["table"], case["mode"]
-    src = os.path.join(d, "src.cool")
-    gen.make_cooler(src, table, case["px"], mode)
+    src = gen.place(os.path.join(d, "src.cool"), table, case["px"], mode, at=case.get("at"))
     fmt = case["fmt"]
     dump_args = ["dump", src, "-k", str(case["chunk"])] + (["--join"] if fmt == "bg2" else [])
     if case["one_based"] and fmt == "coo":
@@ -162,7 +163,7 @@ def tx_roundtrip(case, ctx):
     txt = os.path.join(d, "dumped.txt")
     with open(txt, "w") as f:
         f.write(out)
-    dst = os.path.join(d, "dst.cool")
+    dst = os.path.join(d, "dst.cool") + ("::" + case["at"] if case.get("at") else "")
     args = ["load", "-f", fmt, _bins_arg(d, table), txt, dst, "--temp-dir", d, "--chunksize", str(case["chunk2"]),
             "--max-merge", str(case.get("max_merge", 200))]
     if mode != "symm":
